@@ -418,8 +418,9 @@ def check_C08(run):
     run.sample({"request": att[0] if att else "", "implementation": impl[n] if att else ""})
     run.sample({"request": perft[0] if perft else "", "implementation": impl[off] if perft else "", "rules_leaves": model[off] if perft else ""})
     run.cov["attack_pre_b_true_on_positions"] = napre
-    run.cov["explanation"] = ("PARTIAL proof (closed lemmas under 'theorems'): the square attack query = Rules.attacked is proved for both frames "
-                              f"under attack_pre_b, evaluated (true) on all {napre} positions of this run; count/captures/is_capture/set-valued "
+    run.cov["explanation"] = ("proof on the model (closed lemmas under 'theorems'): the square attack query and the set-valued queries = Rules.attacked for both frames "
+                              f"under attack_pre_b, evaluated (true) on all {napre} positions of this run; count_moves = length, captures = the rules' captures, perft d = the rules' "
+                              "leaf count for every depth (PerftRules, on C01's equivalence); the tie to the code: count/captures/is_capture/set-valued "
                               "attack queries/perft of the real library are compared with the rules specification on generated positions of D")
 
 
